@@ -641,4 +641,34 @@ theorem crashImage_chunks_hole : ∀ (parts : List Bytes) (F : Bytes) (ip k j : 
         rw [List.append_assoc (F ++ zeros ip ++ p), he, List.flatten_cons, List.take_append,
           List.take_of_length_le (Nat.le_add_right _ _), Nat.add_sub_cancel_left]
         simp
+theorem readV2Header_bytes_zero_size (h : V2Header) (hhi : h.charHi < 2 ^ 64) (hlo : h.charLo < 2 ^ 64)
+    (hd : h.dataOffset < 2 ^ 64) (hs : h.dataSize = 0) (hio : h.indexOffset < 2 ^ 64) (rest : Bytes) :
+    ∃ e, readV2Header (h.bytes ++ rest) = .error e := by
+  unfold readV2Header
+  have hlen : (h.bytes ++ rest).length = 40 + rest.length := by simp [V2Header.bytes_length]
+  have c1 : ¬ ((h.bytes ++ rest).length < 16) := by omega
+  have c2 : ¬ ((h.bytes ++ rest).length < 40) := by omega
+  simp only [c1, c2, ↓reduceIte]
+  have p64 : (2:Nat) ^ 63 < 2 ^ 64 := by decide
+  have e : h.bytes ++ rest = le64 h.charHi ++ (le64 h.charLo ++ (le64 h.dataOffset ++ (le64 h.dataSize ++ (le64 h.indexOffset ++ rest)))) := by
+    simp [V2Header.bytes]
+  have t0 : (h.bytes ++ rest).take 8 = le64 h.charHi := by rw [e]; exact List.take_left' (le64_length _)
+  have d8 : (h.bytes ++ rest).drop 8 = le64 h.charLo ++ (le64 h.dataOffset ++ (le64 h.dataSize ++ (le64 h.indexOffset ++ rest))) := by
+    rw [e]; exact List.drop_left' (le64_length _)
+  have d16 : (h.bytes ++ rest).drop 16 = le64 h.dataOffset ++ (le64 h.dataSize ++ (le64 h.indexOffset ++ rest)) := by
+    rw [show 16 = 8 + 8 by rfl, ← List.drop_drop, d8]; exact List.drop_left' (le64_length _)
+  have d24 : (h.bytes ++ rest).drop 24 = le64 h.dataSize ++ (le64 h.indexOffset ++ rest) := by
+    rw [show 24 = 16 + 8 by rfl, ← List.drop_drop, d16]; exact List.drop_left' (le64_length _)
+  have d32 : (h.bytes ++ rest).drop 32 = le64 h.indexOffset ++ rest := by
+    rw [show 32 = 24 + 8 by rfl, ← List.drop_drop, d24]; exact List.drop_left' (le64_length _)
+  have d40 : (h.bytes ++ rest).drop 40 = rest := by
+    rw [show 40 = 32 + 8 by rfl, ← List.drop_drop, d32]; exact List.drop_left' (le64_length _)
+  rw [t0, d8, d16, d24, d32, d40]
+  rw [List.take_left' (le64_length _), List.take_left' (le64_length _), List.take_left' (le64_length _),
+      List.take_left' (le64_length _)]
+  rw [leVal_le64 _ hhi, leVal_le64 _ hlo, leVal_le64 _ hd, leVal_le64 _ (by rw [hs]; decide), leVal_le64 _ hio]
+  simp only [hs]
+  split
+  · exact ⟨_, rfl⟩
+  · simp
 end Car
